@@ -187,8 +187,9 @@ class Source(object):
         log_error[r] = self.error[r]
         weight[r] = 1. / log_error[r] ** 2.
 
-        # Ignored points
-        r = self.valid == 9
+        # Ignored points (only shown in plots - a non-positive flux has no
+        # logarithm and would otherwise propagate NaN into the fit)
+        r = (self.valid == 9) & (self.flux > 0)
         log_flux[r] = np.log10(self.flux[r]) - 0.5 * (self.error[r] / self.flux[r]) ** 2. / np.log(10.)
         log_error[r] = np.abs(self.error[r] / self.flux[r]) / np.log(10.)
 
